@@ -7,6 +7,7 @@ import inst_common as ic
 import inst_gen as ig
 
 ASSUMPTIONS = [
+    "after EVERY operation (any receiver) each frozen instance held by the program keeps its own dictionary (scalar fields equal, reference fields still references)",
     "in-place calls on frozen instances must change nothing (oracle) and raise FrozenInstanceError where the model says so (correspondence); argument-validation errors may pre-empt FrozenInstanceError and no-op calls (_if=False, UNCHANGED) do not raise",
     "twin relation checked on the implementation for histories of copy-on-write calls: the same history on the class table with the frozen flags cleared yields the same object graphs",
 ]
@@ -16,6 +17,10 @@ GENS = [
     # a frozen holder of non-frozen nested values: in-place nested updates must not reach the nested objects
     (4, dict(bad_rate=0.05, inplace_rate=0.85, fail_rate=0.0, flavour="frozen_parent", prefer_nested=True,
              weights={"construct": 1, "scalar": 6, "item": 5, "top": 3})),
+    # frozen instances handed to a holder's helpers together with nested keywords: the holder's
+    # copy carries the change, the caller's frozen instance keeps its dictionary
+    (3, dict(bad_rate=0.05, inplace_rate=0.0, fail_rate=0.05, flavour="frozen", prefer_nested=True,
+             weights={"construct": 1, "scalar": 5, "item": 6, "top": 1})),
 ]
 
 
